@@ -15,7 +15,6 @@ import numpy as np
 from .. import core, gen
 
 ID = 'C08'
-FOUNDATIONS = ['harness.foundation.concurrent', 'harness.foundation.soak']   # the property's own functions under concurrent calls and call histories (validation)
 LEVEL = 'other'
 RULE = ('corpus; accessor-model cases: random 1-4 D shapes x random element strides (negative, zero, non-monotone, offsets) '
         'compared with numpy as_strided and with the compiled iterator through labeled_sum; sweep: every registered public '
